@@ -213,10 +213,14 @@ def replay_wrapper(call):
             if V_ is W:
                 continue
             tried += 1
-            x = W(V_(W(f)))
+            v = V_(W(f))
+            held = v.function
+            x = W(v)
             inner = x.function
             if type(inner) is not V_ or inner.function is not f:
                 bad.append('%s(%s(%s(f))) = %r' % (W.__name__, V_.__name__, W.__name__, x))
+            if v.function is not held or type(held) is not W or held.function is not f:
+                bad.append('%s(v) with v = %s(%s(f)) changed its argument v to %r' % (W.__name__, V_.__name__, W.__name__, v))
     return dict(fails=bool(bad), detail='; '.join(bad[:3]) or '%d rebuilt re-wrapping cases agree with the oracle' % tried)
 
 
